@@ -224,6 +224,18 @@ m('neutral_p16_early_mask_narrow','neutral','src/p16e1.rs',
   note='early-return mask narrowed: inputs 2..7 now go through the normalisation loop and come out as the exact small posits 2^-17..7*2^-18, all inside [0,1): the property still holds (DESIGN 3.6 guessed otherwise; the check is rightly silent)')
 m('p16_unclamped','C19','src/p16e1.rs',
   "            .min(0x3FFF)\n","", note='re-introduces the defect fixed in c448680')
+m('p8_via_next_u64','C19','src/p8e0.rs',
+  "        let s = rng.gen_range(0_u8..0x_40);\n        P8E0::new(s as i8)",
+  "        let w: u64 = rng.gen();\n        P8E0::new(((w >> 58) as i8) | ((((w as u32) == u32::MAX) as i8) << 6))",
+  note='sampler on one 64-bit draw; >= 1.0 only when the LOW 32 bits of the u64 word are all ones (exercises the next_u64 path of the simulated generator)')
+m('p8_via_fill_bytes','C19','src/p8e0.rs',
+  "        let s = rng.gen_range(0_u8..0x_40);\n        P8E0::new(s as i8)",
+  "        let mut b = [0u8; 1];\n        rng.fill_bytes(&mut b);\n        P8E0::new(((b[0] >> 2) as i8) | (((b[0] == 0xFF) as i8) << 6))",
+  note='sampler on fill_bytes; >= 1.0 only for the byte 0xff (exercises the fill_bytes path)')
+m('q8_assert_multiline_panic','C04','src/quire8/ops.rs',
+  "    let uq_z = uq_z2.wrapping_add(uq_z1);\n\n    //Exception handling\n    let q_z = Q8E0::from_bits(uq_z);\n    *q = if q_z.is_nar() { Q8E0::ZERO } else { q_z }\n}\n\npub(super) fn fdp_one(",
+  "    let uq_z = uq_z2.wrapping_add(uq_z1);\n    assert_eq!(uq_z & 0x7, uq_z & 0x7 & !(((uq_z >> 20) & 1) * 4), \"low bits\\nmust be clear\");\n\n    //Exception handling\n    let q_z = Q8E0::from_bits(uq_z);\n    *q = if q_z.is_nar() { Q8E0::ZERO } else { q_z }\n}\n\npub(super) fn fdp_one(",
+  note='an assert_eq! with a multi-line message that fires for some sums: the panic text must survive the replay file and the fresh-process comparison')
 # ---------------- neutral (must stay silent)
 m('neutral_q32_overflowing_add','neutral','src/quire32/ops.rs',
   """        if i == 7 {
